@@ -336,6 +336,9 @@ def r10_children_keys(ctx) -> None:
         continue
       if g is None:
         g = cfgmod.CFG(m.node)
+        # handler bodies are reached from any statement of their try block
+        g.add_exception_edges(lambda n_: ['*'] if any(part == 'body' for _, part in getattr(n_, 'trys', [])) else [],
+                              lambda h_, exc_, n_: 'may')
         rd = flow.ReachingDefs(g)
       node = g.node_of(x)
       # a key that is (on every reaching definition) a parameter as given is a raw caller value
